@@ -18,7 +18,7 @@ var catalogTFs = []struct {
 	{"30Min", 1800e9}, {"1H", 3600e9}, {"4H", 4 * 3600e9}, {"2H", 2 * 3600e9}, {"1D", 86400e9},
 }
 
-var fixedTypes = []struct {
+var storeFixedTypes = []struct {
 	name string
 	size int
 }{
@@ -37,7 +37,7 @@ func (g *Gen) schema() genSchema {
 	var parts, names []string
 	size := 0
 	for i := 0; i < n; i++ {
-		t := fixedTypes[g.Intn(len(fixedTypes))]
+		t := storeFixedTypes[g.Intn(len(storeFixedTypes))]
 		nm := fmt.Sprintf("c%d", i)
 		parts = append(parts, nm+"="+t.name)
 		names = append(names, nm)
